@@ -1,5 +1,6 @@
 #!/bin/bash
 # usage: tools_try_seed.sh <patch.diff> <ID> [<ID>...]   -- apply a seeded change to /repo, run quick checks, undo
+export VERIF_OUT=/tmp/mutant_out  # keep committed evidence intact
 patch=$1; shift
 git -C /repo apply "$patch" || { echo "patch does not apply"; exit 3; }
 for id in "$@"; do
